@@ -664,7 +664,8 @@ def build_plan(repo, module):
 
 # property -> [(module, Verus function name as in --output-json without the crate prefix)]
 OBLIGATIONS = {
-    "C01": [("core", "ProcessExpr::to_tokens"), ("core", "ErrExpr::to_tokens"), ("core", "InitialExpr::to_tokens"),
+    "C01": [("sep", "JoinOutput::separate_block_expr_process"), ("sep", "JoinOutput::separate_block_expr_err"), ("sep", "JoinOutput::separate_block_expr_initial"), ("sep", "lemma_sep_step"),
+            ("core", "ProcessExpr::to_tokens"), ("core", "ErrExpr::to_tokens"), ("core", "InitialExpr::to_tokens"),
             ("optable", "lemma_operator_tables"),
             # operator identity survives hoisting a block operand / splicing a wrapper closure
             ("core", "ProcessExpr::replace_inner_exprs"), ("core", "ErrExpr::replace_inner_exprs"),
